@@ -70,16 +70,21 @@ def decls_for(config):
         if config["preset"].startswith("fixed"):
             decl.pop("length", None)
             decl["width"] = width
+        if config.get("allowed"):
+            decl["allowed"] = config["allowed"]  # the data format's allowed characters apply to every field
         decls.append(harness.complete(decl))
     return decls
 
 
-def make_cid(config, decls=None):
+def cid_rows_of(config, decls=None):
     decls = decls or decls_for(config)
     extra = list(config.get("extra", ()))
-    rows = harness.cid_rows(config["preset"], decls, config.get("checks", ()), config.get("header", 0), extra=extra,
-                            line_delimiter="lf" if config["preset"] in ("delimited", "fixed", "delimited_de", "delimited_us", "fixed_de") else None)
-    return harness.make_cid(rows)
+    return harness.cid_rows(config["preset"], decls, config.get("checks", ()), config.get("header", 0), extra=extra, allowed=config.get("allowed"),
+                            line_delimiter=config.get("line_delimiter", "lf") if config["preset"] in ("delimited", "fixed", "delimited_de", "delimited_us", "fixed_de") else None)
+
+
+def make_cid(config, decls=None):
+    return harness.make_cid(cid_rows_of(config, decls))
 
 
 def store(config, decls, table, name="data"):
@@ -93,7 +98,7 @@ def store(config, decls, table, name="data"):
             writer.writerow(row)
         return harness.NamedStringIO(stream.getvalue(), name + ".csv"), name + ".csv"
     if fmt == "fixed":
-        text = "".join("".join(cell.ljust(decl["width"]) for cell, decl in zip(row, decls)) + "\n" for row in table)
+        text = "".join("".join(cell.ljust(decl["width"]) for cell, decl in zip(row, decls)) + ("" if config.get("line_delimiter") == "none" else "\n") for row in table)
         return harness.NamedStringIO(text, name + ".txt"), name + ".txt"
     if fmt == "ods":
         path = os.path.join(tmpdir(), name + ".ods")
@@ -128,7 +133,7 @@ CHECK_IGNORE = ("_field_names", "_description", "_rule", "_location", "_location
 
 
 def check_snapshot(cid):
-    return tuple((name, snapshot.snap(cid.check_map[name], ignore=CHECK_IGNORE)) for name in cid.check_names)
+    return tuple((name, snapshot.snap(check, ignore=CHECK_IGNORE)) for name, check in cid.check_map.items())  # (no lookup by name: the map is the CID's own business)
 
 
 def run_reader(cid, source, mode="yield", limit=None, close=True, reader=None):
@@ -264,6 +269,11 @@ def row_shapes(config, decls, tier="quick"):
         for column in (bad_columns[0], bad_columns[-1]):
             row[column] = CATALOGUE[names[column]][3][0]
         shapes.append(("bad%d+%d" % (bad_columns[0], bad_columns[-1]), row))
+    if "note" in names:
+        # a free-text cell with a character outside ASCII: accepted unless the data format restricts the allowed characters
+        row = list(base)
+        row[names.index("note")] = "caf\xe9"
+        shapes.append(("note-non-ascii", row))
     if len(names) >= 2 and all(CATALOGUE[n][0].get("empty") for n in names):
         # every field may be empty: a row of empty cells only is an accepted row like any other
         shapes.append(("all-cells-empty", [""] * len(names)))
